@@ -4,7 +4,8 @@ from .base import Base, bump
 from .. import core
 from ..core import hx
 
-LANGS = ["en", "en-US", "pl", "fr-CA", "de", "und"]
+# ca / ca-valencia and de / de-1901 / de-1996 differ only in their VARIANT subtags
+LANGS = ["en", "en-US", "pl", "fr-CA", "de", "und", "ca", "ca-valencia", "de-1901", "de-1996"]
 ARGS = ["", "a", "b", "ab", "é", "a ", "A", "\U0001F600"]
 FAILS = [0, 1, 1, 2, 3, 9]
 
@@ -14,6 +15,7 @@ def all_keys():
     for a in ARGS:
         ks.append(("A", hx(a)))
         ks.append(("B", hx(a)))
+        ks.append(("C", hx(a)))      # same Args type and values as A, another formatter type
         for n in (0, 1, 2, 3, 9):
             ks.append(("F", "%s.%d" % (hx(a), n)))
     return ks
